@@ -315,7 +315,12 @@ func ruleFreshNonce(c *eng.Ctx) {
 		c.Ok(rule, name+":nonce-origin", s.Call.Pos(), "nonce originates from NewRandomNonce() at %s", c.P.Pos(roots[0].Pos()))
 		nc := eng.RootCall(roots[0])
 		seals := 0
+		counted := map[ssa.Instruction]bool{}
 		for _, u := range eng.Uses(nc) {
+			if counted[u] {
+				continue
+			}
+			counted[u] = true
 			if uc, ok := u.(ssa.CallInstruction); ok && eng.MethodName(uc) == "Seal" && eng.Arg(uc, 1) != nil {
 				isNonceArg := false
 				for _, r := range eng.Origins(eng.Arg(uc, 1), nil) {
